@@ -11,6 +11,7 @@ import (
 	"sort"
 	"strings"
 	"testing"
+	"time"
 
 	"go.opentelemetry.io/collector/component"
 	"go.opentelemetry.io/collector/confmap"
@@ -43,6 +44,15 @@ type c13WLeaf struct {
 	secret bool
 	enum   bool // text-marshalled enumeration: the effective configuration may change the case (Level.MarshalText)
 	list   bool // slice-valued setting (an atom in the Lean decode model: compared by the direct oracles only)
+	exp    any  // what the effective configuration shows for it when that is not `v` itself ("2s" -> 2000000000)
+	null   bool // an explicit YAML null written at an optional: only the typed comparison and the load itself are judged
+}
+
+func (l c13WLeaf) want() any {
+	if l.exp != nil {
+		return l.exp
+	}
+	return l.v
 }
 
 func (i *c13Inst) id() string {
@@ -304,7 +314,7 @@ func TestVerifC13Load(t *testing.T) {
 				if l.secret {
 					wS[vHex(l.path)] = "!" + vHex(l.v.(string))
 				} else {
-					wS[vHex(l.path)] = low(l.v)
+					wS[vHex(l.path)] = low(l.want())
 				}
 			}
 			for p := range defFlat[kindKey] {
@@ -376,8 +386,8 @@ func TestVerifC13Load(t *testing.T) {
 					if s, isStr := g.(string); !isStr || s != "[REDACTED]" {
 						out.Linef("viol sig=C13/effective/secret-in-effective-config id=%s/%s path=%s got=%s type=%T", in.section, in.id(), l.path, vHex(fmt.Sprint(g)), g)
 					}
-				case l.enum && strings.EqualFold(c13Norm(g), c13Norm(l.v)):
-				case c13Norm(g) != c13Norm(l.v):
+				case l.enum && strings.EqualFold(c13Norm(g), c13Norm(l.want())):
+				case c13Norm(g) != c13Norm(l.want()):
 					out.Linef("viol sig=C13/effective/written-key-not-reflected id=%s/%s path=%s wrote=%v got=%v", in.section, in.id(), l.path, l.v, g)
 				}
 				if l.secret && strings.Contains(effText, l.v.(string)) {
@@ -621,7 +631,7 @@ func c13Faith(out *vOut, in *c13Inst, got map[string]any, def map[string]any, le
 		if l.list {
 			continue
 		}
-		w[vHex(l.path)] = id(l.v)
+		w[vHex(l.path)] = id(l.want())
 		// the queried position: the leaf itself, or the map-kind leaf above it (headers::authorization → headers)
 		q := l.path
 		for q != "" && !leaves[q] {
@@ -744,6 +754,28 @@ func c13Setup(t *testing.T, factories otelcol.Factories) (kinds []string, toggle
 			}
 		}
 	}
+	c13Cands = map[string][]c13Cand{}
+	for _, k := range kinds {
+		st := strings.SplitN(k, "/", 2)
+		f := c13Factory(factories, st[0], st[1])
+		var cs []c13Cand
+		c13Candidates(reflect.TypeOf(f.CreateDefaultConfig()), nil, 0, &cs)
+		// generator hygiene: a setting whose sample value is rejected when written alone is not used
+		for _, cd := range cs {
+			rnd := rand.New(rand.NewPCG(7, 7))
+			n := 0
+			w := map[string]any{}
+			for _, l := range cd.gen(rnd, func() string { n++; return fmt.Sprintf("probe-secret-%d", n) }, 0) {
+				c13SetPath(w, l.path, l.v)
+			}
+			fresh := f.CreateDefaultConfig()
+			if err := confmap.NewFromStringMap(w).Unmarshal(&fresh); err != nil {
+				c13CandRejected = append(c13CandRejected, k+"::"+cd.path)
+				continue
+			}
+			c13Cands[k] = append(c13Cands[k], cd)
+		}
+	}
 	return kinds, toggles, defFlat, leafPaths
 }
 
@@ -817,6 +849,26 @@ func c13GenInsts(rnd *rand.Rand, c int, kinds []string, toggles map[string][]c13
 						v := secret()
 						c13SetPath(in.written, sp.path+"::"+hk, v)
 						in.leaves = append(in.leaves, c13WLeaf{path: sp.path + "::" + hk, v: v, secret: true})
+					}
+				}
+			}
+			// settings chosen from the TYPE of the configuration (every leaf position incl. below nil optionals; value by
+			// hook kind: text kinds from a value table, durations as strings, slices, string maps, plain strings, numbers)
+			if cs := c13Cands[k]; len(cs) > 0 {
+				for j, m := 0, rnd.IntN(7); j < m; j++ {
+					cd := cs[rnd.IntN(len(cs))]
+					conflict := false
+					for _, l := range in.leaves {
+						if l.path == cd.path || strings.HasPrefix(l.path, cd.path+"::") || strings.HasPrefix(cd.path, l.path+"::") {
+							conflict = true
+						}
+					}
+					if conflict {
+						continue
+					}
+					for _, l := range cd.gen(rnd, secret, len(insts)) {
+						c13SetPath(in.written, l.path, l.v)
+						in.leaves = append(in.leaves, l)
 					}
 				}
 			}
@@ -1166,6 +1218,13 @@ func c13ServiceProbe(out *vOut, factories otelcol.Factories, first int) int {
 		switch {
 		case err == nil:
 			out.Linef("viol sig=C13/strict/unknown-key-accepted/%s", strings.ReplaceAll(what, "[0]", "[]"))
+		case strings.HasPrefix(err.Error(), "PANIC") && !(strings.Contains(err.Error(), "Key of non-map type interface") && c13OtelconfPosition(pos)):
+			// any other panic — another message, or a position whose struct is owned by this repository — is a different failure
+			out.Linef("viol sig=C13/strict/unknown-key-panics/%s err=%s", strings.ReplaceAll(what, "[0]", "[]"), vHex(err.Error()))
+		case strings.HasPrefix(err.Error(), "PANIC"):
+			// the struct at this position (go.opentelemetry.io/contrib/config) has a field `interface{}` tagged `,remain`:
+			// mapstructure panics when it tries to store the unknown key there — the collector crashes instead of reporting
+			out.Linef("viol sig=C13/strict/unknown-key-panics-remain-interface-field at=%s err=%s", strings.ReplaceAll(what, "[0]", "[]"), vHex(err.Error()))
 		case !strings.Contains(err.Error(), "zz_unknown_key"):
 			out.Linef("viol sig=C13/strict/error-does-not-name-key/%s err=%s", strings.ReplaceAll(what, "[0]", "[]"), vHex(err.Error()))
 		}
@@ -1221,4 +1280,148 @@ func c13ServiceProbe(out *vOut, factories otelcol.Factories, first int) int {
 		closeCase()
 	}
 	return n
+}
+
+// ---- settings derived from the configuration TYPE ----------------------------------------------------
+
+type c13Cand struct {
+	path string
+	gen  func(rnd *rand.Rand, secret func() string, inst int) []c13WLeaf
+}
+
+var (
+	c13Cands        map[string][]c13Cand
+	c13CandRejected []string
+	c13TextMissing  = map[string]bool{}
+)
+
+// valid texts per text kind (types decoded by their own UnmarshalText); enum: the effective form may change the case
+var c13TextValues = map[string]struct {
+	vals []string
+	enum bool
+}{
+	"configtelemetry.Level":      {[]string{"none", "basic", "normal", "detailed"}, true},
+	"configcompression.Type":     {[]string{"gzip", "zstd", "snappy", "zlib", "deflate", "none"}, false},
+	"component.ID":               {[]string{"nop", "nop/x1", "file_storage/q"}, false},
+	"request.SizerType":          {[]string{"items", "bytes", "requests"}, false},
+	"confignet.TransportType":    {[]string{"tcp", "udp", "unix"}, false},
+	"component.Type":             {[]string{"nop", "otlp"}, false},
+	"pipeline.ID":                {[]string{"traces", "metrics/x"}, false},
+	"configtls.TLSVersion":       {[]string{"1.2", "1.3"}, false},
+	"exporterhelper.SizerType":   {[]string{"items", "bytes", "requests"}, false},
+	"configcompression.Level":    {[]string{"1", "5"}, false},
+	"configmiddleware.Config":    {nil, false},
+	"configoptional.Optional[T]": {nil, false},
+}
+
+var c13DurationT = reflect.TypeOf(time.Duration(0))
+
+func c13Candidates(t reflect.Type, path []string, depth int, out *[]c13Cand) {
+	for t.Kind() == reflect.Pointer && t != c13OpaqueT {
+		t = t.Elem()
+	}
+	p := strings.Join(path, "::")
+	one := func(f func(rnd *rand.Rand, secret func() string, inst int) c13WLeaf) {
+		if p == "" {
+			return
+		}
+		*out = append(*out, c13Cand{p, func(rnd *rand.Rand, secret func() string, inst int) []c13WLeaf {
+			return []c13WLeaf{f(rnd, secret, inst)}
+		}})
+	}
+	if depth > 12 {
+		return
+	}
+	switch {
+	case t == c13OpaqueT:
+		one(func(_ *rand.Rand, secret func() string, _ int) c13WLeaf {
+			return c13WLeaf{path: p, v: secret(), secret: true}
+		})
+		return
+	case t == c13DurationT:
+		one(func(rnd *rand.Rand, _ func() string, _ int) c13WLeaf {
+			s := []string{"150ms", "2s", "1m30s", "7s", "250ms"}[rnd.IntN(5)]
+			d, _ := time.ParseDuration(s)
+			return c13WLeaf{path: p, v: s, exp: int64(d)} // written as text, shown as nanoseconds
+		})
+		return
+	case reflect.PointerTo(t).Implements(c13TextUnm):
+		tv, ok := c13TextValues[t.String()]
+		if !ok {
+			c13TextMissing[t.String()] = true
+			return
+		}
+		if len(tv.vals) == 0 {
+			return
+		}
+		one(func(rnd *rand.Rand, _ func() string, _ int) c13WLeaf {
+			return c13WLeaf{path: p, v: tv.vals[rnd.IntN(len(tv.vals))], enum: tv.enum}
+		})
+		return
+	}
+	switch t.Kind() {
+	case reflect.Struct:
+		w := &c13SchemaW{}
+		for _, f := range w.fields(t, reflect.Value{}, path) {
+			c13Candidates(f.t, append(append([]string{}, path...), f.key), depth+1, out)
+		}
+	case reflect.Bool:
+		one(func(rnd *rand.Rand, _ func() string, _ int) c13WLeaf { return c13WLeaf{path: p, v: rnd.IntN(2) == 0} })
+	case reflect.Int, reflect.Int8, reflect.Int16, reflect.Int32, reflect.Int64:
+		one(func(rnd *rand.Rand, _ func() string, _ int) c13WLeaf { return c13WLeaf{path: p, v: 1 + rnd.IntN(9)} })
+	case reflect.Uint, reflect.Uint8, reflect.Uint16, reflect.Uint32, reflect.Uint64:
+		one(func(rnd *rand.Rand, _ func() string, _ int) c13WLeaf { return c13WLeaf{path: p, v: 1 + rnd.IntN(9)} })
+	case reflect.Float32, reflect.Float64:
+		one(func(rnd *rand.Rand, _ func() string, _ int) c13WLeaf {
+			return c13WLeaf{path: p, v: float64(1+rnd.IntN(9)) / 4}
+		})
+	case reflect.String:
+		one(func(rnd *rand.Rand, _ func() string, inst int) c13WLeaf {
+			v := fmt.Sprintf("v%d-%d", inst, rnd.IntN(100))
+			if strings.HasSuffix(p, "_url_path") {
+				v = "/" + v // otlpreceiver sanitizeURLPath adds the leading slash (named exception): written already normalised
+			}
+			return c13WLeaf{path: p, v: v}
+		})
+	case reflect.Slice:
+		if t.Elem().Kind() == reflect.String && !reflect.PointerTo(t.Elem()).Implements(c13TextUnm) {
+			one(func(rnd *rand.Rand, _ func() string, inst int) c13WLeaf {
+				v := []any{fmt.Sprintf("e%d-%d", inst, rnd.IntN(50))}
+				if rnd.IntN(2) == 0 {
+					v = append(v, fmt.Sprintf("f%d-%d", inst, rnd.IntN(50)))
+				}
+				return c13WLeaf{path: p, v: v, list: true}
+			})
+		}
+	case reflect.Map:
+		if t.Key().Kind() != reflect.String {
+			return
+		}
+		switch {
+		case t.Elem() == c13OpaqueT:
+			*out = append(*out, c13Cand{p, func(rnd *rand.Rand, secret func() string, inst int) []c13WLeaf {
+				var ls []c13WLeaf
+				for _, hk := range []string{"authorization", fmt.Sprintf("x-key-%d", inst)}[rnd.IntN(2):] {
+					ls = append(ls, c13WLeaf{path: p + "::" + hk, v: secret(), secret: true})
+				}
+				return ls
+			}})
+		case t.Elem().Kind() == reflect.String:
+			*out = append(*out, c13Cand{p, func(rnd *rand.Rand, _ func() string, inst int) []c13WLeaf {
+				return []c13WLeaf{{path: p + "::" + fmt.Sprintf("mk-%d", inst), v: fmt.Sprintf("mv-%d", rnd.IntN(50))}}
+			}})
+		}
+	}
+}
+
+// c13OtelconfPosition: the struct at this position is one of the go.opentelemetry.io/contrib/otelconf v0.3.0 schema types
+// (elements of service::telemetry::{traces,logs}::processors and ::metrics::readers and what is below them).
+func c13OtelconfPosition(pos []string) bool {
+	p := strings.Join(pos, "::")
+	for _, pre := range []string{"service::telemetry::traces::processors::[", "service::telemetry::logs::processors::[", "service::telemetry::metrics::readers::["} {
+		if strings.HasPrefix(p, pre) {
+			return true
+		}
+	}
+	return false
 }
